@@ -6,6 +6,7 @@ package c12
 // late or of an unexpected kind. Afterwards the usual probes run.
 
 import (
+	"context"
 	"fmt"
 	"math/big"
 	"math/rand"
@@ -203,7 +204,7 @@ var deviations = []deviation{
 		}
 		mKey, vKey := wire.Keys(a.M.Wire), wire.Keys(a.V.Wire)
 		var refused int64
-		a.w.Bus.SetSendFault(func(e *wire.Envelope) error {
+		a.w.Bus.SetSendFault(func(_ context.Context, e *wire.Envelope) error {
 			if wire.Keys(e.Sender) != vKey || wire.Keys(e.Recipient) != mKey {
 				return nil
 			}
@@ -225,6 +226,28 @@ var deviations = []deviation{
 		a.M.SetTimeout(20 * time.Second)
 		a.H.SetTimeout(20 * time.Second)
 		return ok
+	}},
+	{name: "sync/the-sender-cannot-be-reached", run: func(rng *rand.Rand, a *arena) bool {
+		// A sync message for the attacked channel from an address nobody listens on: the victim's
+		// reply cannot be delivered (Publish returns only when its context ends, as on real buses).
+		ghost := gen.WireAddr(rng)
+		gk := wire.Keys(ghost)
+		var blocked int64
+		a.w.Bus.SetSendFault(func(ctx context.Context, e *wire.Envelope) error {
+			if wire.Keys(e.Recipient) != gk {
+				return nil
+			}
+			atomic.AddInt64(&blocked, 1)
+			<-ctx.Done()
+			return ctx.Err()
+		})
+		st := a.chM.State().Clone()
+		sigs := make([]wallet.Sig, 2)
+		if rng.Intn(2) == 0 {
+			sigs = []wallet.Sig{signM(a, st), nil}
+		}
+		a.w.Bus.Inject(&wire.Envelope{Sender: ghost, Recipient: a.V.Wire, Msg: &client.ChannelSyncMsg{Phase: channel.Acting, CurrentTX: channel.Transaction{State: st, Sigs: sigs}}})
+		return waitUntil(5*time.Second, func() bool { return atomic.LoadInt64(&blocked) > 0 })
 	}},
 	{name: "opening/version-0-signature-replaced", run: func(rng *rand.Rand, a *arena) bool {
 		// M answers the version-0 signature exchange of a new channel with something else
